@@ -564,6 +564,7 @@ type opBucket struct {
 
 	// control, set before use
 	freezeAtMut int                                     // park instead of executing mutation #k; 0 = never
+	failAtMut   int                                     // mutation #k is not applied and returns a transient error; 0 = never
 	observe     func(op opRec)                          // after each executed mutation (mutex held)
 	failRead    func(op opRec) (fail bool, onRead bool) // decide on injecting a transient error into a read
 	onSyncBegin func(ord int)
@@ -668,6 +669,11 @@ func (b *opBucket) mutate(kind, name string, do func() error) error {
 		b.mu.Unlock()
 		<-b.releaseCh
 		return errDead
+	}
+	if b.failAtMut > 0 && b.nMut == b.failAtMut {
+		b.frozenOp = op
+		b.mu.Unlock()
+		return errInjected
 	}
 	err := do()
 	if err == nil && b.observe != nil {
